@@ -152,6 +152,77 @@ theorem doh_single_read_loses : ∃ (hdr rest : Bytes), hdr.length = 12 ∧ rest
 
 end Doh
 
+/-! ### The layer between transport and socket: data that comes together with an error -/
+section Wrap
+open Model.C02.Wrap
+
+theorem wrap_keeps (r : Rd) : wrap true r = r := by simp [wrap]
+
+/-- Through a layer whose `Read` is the wrapped connection's own, `io.ReadFull` sees what the connection gave. -/
+theorem readFull_through_layer (rs : List Rd) (need : Nat) (acc : Bytes) :
+    readFull (rs.map (wrap true)) need acc = readFull rs need acc := by
+  have : wrap true = id := funext wrap_keeps
+  simp [this]
+
+/-- **C02 (stream reads).** If the pieces the `Read` calls hand out add up to at least the `need` bytes of the frame
+and no call before the last one reports an error, `io.ReadFull` returns the frame - also when the last piece comes
+together with EOF / a read error (the peer closed right behind the reply). -/
+theorem readFull_complete : ∀ (rs : List Rd) (need : Nat) (acc : Bytes),
+    need ≤ (rs.map (·.data)).flatten.length → (∀ r ∈ rs.dropLast, r.err = false) →
+    readFull rs need acc = some (acc ++ (rs.map (·.data)).flatten.take need) := by
+  intro rs
+  induction rs with
+  | nil => intro need acc h _; simp at h; simp [readFull, h]
+  | cons r rs ih =>
+    intro need acc h he
+    simp only [readFull, List.map_cons, List.flatten_cons]
+    by_cases h0 : need = 0
+    · simp [h0]
+    · simp only [h0, if_false]
+      by_cases hle : need ≤ r.data.length
+      · simp only [hle, if_true]; rw [List.take_append_of_le_length hle]
+      · simp only [hle, if_false]
+        have hne : rs ≠ [] := by
+          intro hn; subst hn; simp at h; omega
+        have hr : r.err = false := he r (by
+          cases rs with
+          | nil => exact absurd rfl hne
+          | cons a t => simp [List.dropLast])
+        simp only [hr]
+        have hlen : need - r.data.length ≤ (rs.map (·.data)).flatten.length := by
+          simp only [List.map_cons, List.flatten_cons, List.length_append] at h; omega
+        have he' : ∀ x ∈ rs.dropLast, x.err = false := by
+          intro x hx
+          apply he x
+          cases rs with
+          | nil => simp at hx
+          | cons a t => simp only [List.dropLast]; exact List.mem_cons_of_mem _ hx
+        rw [ih (need - r.data.length) (acc ++ r.data) hlen he']
+        have : r.data.length ≤ need := by omega
+        rw [List.take_append, List.take_of_length_le this, List.append_assoc]
+        simp
+
+/-- The whole frame handed out by one `Read` together with EOF is delivered through a layer that keeps `Read` ... -/
+theorem eof_with_data_kept (f : Bytes) : readFull ([⟨f, true⟩].map (wrap true)) f.length [] = some f := by
+  rw [readFull_through_layer, readFull_complete] <;> simp
+
+/-- ... and lost through one that answers an error with `(0, err)`. Hence the guard `c02ObserverLayerKeepsRead`. -/
+theorem eof_with_data_dropped (f : Bytes) (h : f ≠ []) : readFull ([⟨f, true⟩].map (wrap false)) f.length [] = none := by
+  have : f.length ≠ 0 := by intro hl; exact h (List.length_eq_zero_iff.mp hl)
+  simp [readFull, wrap, this]
+
+end Wrap
+
+/-- The caller parked, the reply arrived and the close notification right behind it: a wait that honours the close
+notification without looking at the reply channel first loses the reply (DoQ: the connection's context competing
+with the reader's result). Hence the guards `c02QuicWaitOnlyCtxAndReply` / `c02*DrainsOnClose`. -/
+theorem parked_no_drain_loses : ∃ s, run ⟨1, false, true⟩ {} [.writeReturns, .readerDeliver, .readerClose, .pickClose] = some s ∧
+    s.phase = .gotCloseErr ∧ s.arrived = true := ⟨_, rfl, rfl, rfl⟩
+
+/-- A wait without any close case (DoQ) is the schedules in which `pickClose` is never taken: `reply_not_lost` covers
+them, and the parked caller whose reply arrived leaves with it whatever happened to the connection meanwhile. -/
+theorem no_close_case_takes_reply : (run ⟨1, true, true⟩ {} [.writeReturns, .readerDeliver, .readerClose, .pickReply]).map (·.phase) = some .gotReply := by decide
+
 /-! ### Guards over the regenerated facts -/
 theorem facts_guard :
     (∃ n, Gen.Facts.c02TdcRespChanCap = some n ∧ 1 ≤ n) ∧ (∃ n, Gen.Facts.c02ReuseRespChanCap = some n ∧ 1 ≤ n) ∧
@@ -159,9 +230,10 @@ theorem facts_guard :
     Gen.Facts.c02ReaderHandsOffNonBlocking = some true ∧ Gen.Facts.c02ReuseChanInstalledBeforeWrite = some true ∧
     Gen.Facts.c02NoEarlyCloseCheckAfterWrite = some true ∧
     Gen.Facts.c02CallerCtxReachesWait = some true ∧ Gen.Facts.c02DohBodyReadToEOF = some true ∧
-    Gen.Facts.c02DohWaitsOnCallerCtx = some true := by
-  refine ⟨⟨1, by decide⟩, ⟨1, by decide⟩, ?_⟩
-  decide
+    Gen.Facts.c02DohWaitsOnCallerCtx = some true ∧
+    (∃ n, Gen.Facts.c02QuicRespChanCap = some n ∧ 1 ≤ n) ∧ Gen.Facts.c02QuicWaitOnlyCtxAndReply = some true ∧
+    Gen.Facts.c02ObserverLayerKeepsRead = some true := by
+  refine ⟨⟨1, by decide⟩, ⟨1, by decide⟩, ?_, ?_, ?_, ?_, ?_, ?_, ?_, ?_, ⟨1, by decide⟩, ?_, ?_⟩ <;> decide
 
 /-! ### Non-vacuity: reply during the send, then EOF, then the caller parks -/
 example : (run ⟨1, true, true⟩ {} [.readerDeliver, .readerClose, .writeReturns, .pickClose]).map (·.phase) = some .gotReply := by decide
